@@ -58,7 +58,7 @@ def gen_bases(rnd, tier):
         for size in ([0, 1, 40] if tier == 'quick' else [0, 1, 7, 40, 300, 3000]):
             x = arc.file_member(rnd, m, b'f%d.bin' % size, size=size, level=(mi + size) % 4)
             out.append([x])
-    for k in range(6 if tier == 'quick' else 60):
+    for k in range(24 if tier == 'quick' else 300):
         ms = []
         n = rnd.randrange(2, 5)
         for j in range(n):
